@@ -56,6 +56,10 @@ def _file_case(a):
                     if not perms & BITS[need]:
                         missing.append(letter)
             out.append(('covered' if not missing else 'not-covered', ''.join(sorted(set(missing))), r))
+    # a record whose profile got no block at all was dropped on the way: nothing covers it
+    for r in case['records']:
+        if r['class'] == 'file' and r['fields'].get('profile') not in case['out']:
+            out.append(('not-covered', r['fields'].get('requested_mask', ''), r))
     return out
 
 
